@@ -112,7 +112,12 @@ class SendersSim(PeerSim):
     def concretize(self, proto):
         r = self.rng
         if proto[0] == "send":
-            return ["send", proto[1], r.choice(["D", "D", "8", "0"])]
+            types = ["D", "D", "8", "0"]
+            if not self.session_up():
+                # before the Logon exchange completed only Logon / Logout are accepted: a Logout racing
+                # with the Logon that another task is still sending
+                types = types + ["5", "5"]
+            return ["send", proto[1], r.choice(types)]
         if proto[0] == "stim":
             kind = r.choice(self.cfg["stim_kinds"])
             if kind == "rr":
@@ -143,6 +148,8 @@ class SendersSim(PeerSim):
             mid = f"T{i}-{k}"
             if mtype == "0":
                 m = FIXMessage("0")
+            elif mtype == "5":
+                m = FIXMessage("5", {58: f"task {i} logout {k}"})
             else:
                 m = FIXMessage(mtype, {11: mid, 55: "ES", 54: "1", 38: k + 1, 44: "3.25"})
                 m[58] = f"task {i} msg {k}"
